@@ -147,6 +147,25 @@ def check_tree(run, t, ts, tree, label, root_threshold=1, tracked=(), sample_lis
         expl = sorted(w for w in O.descendants(ch, u) if not ch[w])
         if sorted(tree.leaves(u)) != expl:
             bad("leaves(u)", sorted(tree.leaves(u)), expl)
+    if sample_lists:
+        # left_sample / right_sample / next_sample chains enumerate exactly the samples below each node
+        sample_ids = list(ts.samples())
+        for u in range(n):
+            exp = sorted(w for w in O.descendants(ch, u) if w in samples)
+            chain = []
+            idx = tree.left_sample(u)
+            if idx != -1:
+                stop = tree.right_sample(u)
+                guard = 0
+                while True:
+                    chain.append(sample_ids[idx])
+                    if idx == stop or guard > len(sample_ids):
+                        break
+                    idx = tree.next_sample(idx)
+                    guard += 1
+            if sorted(chain) != exp:
+                bad("sample list chain of u = samples below u", {u: chain}, {u: exp})
+                return False
     # sites and mutations of the tree
     exp_sites = [s for s in range(t.sites.num_rows) if left <= t.sites.position[s] < right]
     if [s.id for s in tree.sites()] != exp_sites:
@@ -238,8 +257,14 @@ def check_ts(run, t, label):
                         return
     ops = ["first", "last", "next", "prev", "seek", "seek_index", "clear", "copy"]
     for _ in range(run.budget(6, 30)):
-        tree = tskit.Tree(ts)
-        hist = []
+        if samples and run.rng.random() < 0.5:
+            h_tr = run.rng.sample(samples, run.rng.randint(0, len(samples)))
+            h_th = run.rng.choice([1, 2])
+            tree = tskit.Tree(ts, tracked_samples=h_tr, sample_lists=True, root_threshold=h_th)
+        else:
+            h_tr, h_th = (), 1
+            tree = tskit.Tree(ts)
+        hist = ["Tree(tracked=%s, root_threshold=%d)" % (list(h_tr), h_th)]
         for _step in range(run.rng.randint(1, 7)):
             op = run.rng.choice(ops)
             if op == "seek":
@@ -260,16 +285,19 @@ def check_ts(run, t, label):
                 hist.append(op)
             run.case()
             if tree.index == -1:
-                if tree.num_edges != 0 or tuple(tree.interval) != (0, 0):
-                    run.violation("null tree is empty", {"case": label, "history": hist, "tables": tables_repr(t)},
-                                  (tree.num_edges, tuple(tree.interval)), (0, (0, 0)))
+                nsites_null = len(list(tree.sites()))
+                if tree.num_edges != 0 or tuple(tree.interval) != (0, 0) or nsites_null != 0 or tree.num_sites != 0:
+                    run.violation("null tree is empty (no edges, no sites, interval (0,0))",
+                                  {"case": label, "history": hist, "tables": tables_repr(t)},
+                                  (tree.num_edges, tuple(tree.interval), tree.num_sites, nsites_null), (0, (0, 0), 0, 0))
                 continue
             kx = tree.index
             if tuple(tree.interval) != (bps[kx], bps[kx + 1]):
                 run.violation("interval after history", {"case": label, "history": hist, "tables": tables_repr(t)},
                               tuple(tree.interval), (bps[kx], bps[kx + 1]))
                 break
-            if not check_tree(run, t, ts, tree, label + "/history " + " ".join(hist)):
+            if not check_tree(run, t, ts, tree, label + "/history " + " ".join(hist), root_threshold=h_th, tracked=h_tr,
+                              sample_lists=bool(h_tr) or h_th != 1):
                 break
 
 
